@@ -83,7 +83,8 @@ func (s *Stack) Cur() *State {
 const _MaxStackSP = uintptr(MaxStack * StateSize)
 
 func (s *Stack) Push(v State) bool {
-	if uintptr(s.sp) >= _MaxStackSP {
+	// same limit as the generated code (save_state): the last slot stays unused
+	if uintptr(s.sp)+uintptr(StateSize) >= _MaxStackSP {
 		return false
 	}
 	st := s.Top()
